@@ -67,3 +67,10 @@ claim('C08', 'Lean 4 refinement proof (condition-stack machine = block-tree sema
       'only; numeric conditions compare integers. Each run compares the image (markers between all directives) of the real CLI with '
       'the tree semantics and with the stack machine.',
       NOTE + ' String-mode comparisons are generated with single-token sides only.')
+
+claim('C11', 'Lean 4 proofs (value bytes mod 2^(8w) in byte order, escape processing, fill / zero / zerountil) + differential correspondence',
+      'Kernel-checked theorems: a listed value emits exactly w bytes, the base-256 digits of v mod 2^(8w) in the configured order '
+      '(negative / oversized values wrap); a quoted string emits one byte per character after escape processing, then the '
+      'terminator; .fill emits n copies of the low byte; .zerountil zeros up to and including its target. Each run compares the image '
+      'of the real CLI with the model on data-directive programs (strings with escapes and both quote kinds, all terminators).',
+      NOTE + ' unicode_escape decoding is modelled for the listed escapes only; finding D30 (value list starting with a quote) is outside the generated language.')
